@@ -941,10 +941,19 @@ def EDFA(input: optical_signal, G: float, NF: float, BW: float=None):
     if not isinstance(input, optical_signal):
         raise TypeError("`input` must be of type (optical_signal).")
 
-    output = optical_signal(signal=input.signal, noise=input.noise, n_pol=2) * np.sqrt( idb(G) )
-    
+    gain = np.sqrt( idb(G) )
+
+    # two-polarization copy of the input. The `*` operator scales only `.signal`,
+    # so the gain is applied to the signal and to the incoming noise explicitly.
+    output = optical_signal(signal=input.signal, noise=input.noise, n_pol=2)
+    output.signal = output.signal * gain
+    if output.noise is not None:
+        output.noise = output.noise.astype(complex) * gain  # complex, so that ASE can be accumulated below
+
     if input.n_pol == 1:
-        output.signal[1] = np.zeros_like(output.signal[0])  # y-polarization of signal is set to zeros.
+        output.signal[1] = 0  # y-polarization of a one-polarization input carries no signal ...
+        if output.noise is not None:
+            output.noise[1] = 0  # ... and no incoming noise
 
     # generate ASE noise (2-polarizations with real and imaginary parts)
     # gv.fs is taken as initial bandwidth of noise 
